@@ -107,6 +107,9 @@ class Run(object):
         self.wake = {}
         self.rel_tasks = {}     # r -> (task, connection)
         self.nrel = 0
+        self.rel_of = {}
+        self.rel_x = {}
+        self.rel_ended = set()
         self.n_cancel = self.n_kill = self.n_fail = 0
         self.dirty = True
         self.last_quiet = None
@@ -149,7 +152,7 @@ class Run(object):
         for k in range(1, self.H + 1):
             hp = pool.host_pools.get(self.keyt(k))
             if hp is None:
-                ps.append({'pr': False, 'rd': [], 'bz': [], 'w': 0, 'lk': False})
+                ps.append({'pr': False, 'rd': [], 'bz': [], 'w': 0, 'lk': False, 'wneg': False})
                 continue
             # ids in a deterministic order: busy first (older), then ready
             bz = sorted(self.cid(x) for x in hp.busy)
@@ -159,17 +162,20 @@ class Run(object):
                     dead.add(self.cid(x))
             w = pool._host_pool_waiters.get(self.keyt(k), 0)
             lk = bool(getattr(getattr(hp, '_lock', None), 'locked', lambda: False)())
-            ps.append({'pr': True, 'rd': rd, 'bz': bz, 'w': max(w, 0) if w >= 0 else 0, 'lk': lk,
-                       **({'wneg': True} if w < 0 else {})})
+            ps.append({'pr': True, 'rd': rd, 'bz': bz, 'w': max(w, 0), 'lk': lk, 'wneg': w < 0})
         for x in self.conn_of.values():
             if x.closed():
                 dead.add(self.cid(x))
         gl = bool(getattr(getattr(pool, '_host_pools_lock', None), 'locked', lambda: False)())
         return {'p': ps, 'dd': sorted(dead), 'gl': gl}
 
+    DEFAULTS = dict(c=0, k=0, x=0, ok=False, mode='', cl=False, r=0, st='', why='')
+
     def log(self, **kw):
         if self.frozen:
             return
+        for f, v in self.DEFAULTS.items():
+            kw.setdefault(f, v)
         kw.update(self.proj())
         self.ev.append(kw)
         self.dirty = True
@@ -177,7 +183,22 @@ class Run(object):
     # ------------------------------------------------------------------ the system under test + clients
     def build(self):
         run = self
-        self.pool = ConnectionPool(max_host_count=self.M, resolver=SimpleResolver(),
+        class TP(ConnectionPool):
+            """Observation only: tells when a no_wait_release task is over (release() is the task's coroutine)."""
+            @asyncio.coroutine
+            def release(self, connection):
+                r = run.rel_of.pop(id(connection), 0)
+                try:
+                    yield from ConnectionPool.release(self, connection)
+                except asyncio.CancelledError:
+                    run._rtask_end(r, 'cancelled')
+                    raise
+                except Exception:
+                    run._rtask_end(r, 'error')
+                    raise
+                run._rtask_end(r, 'done')
+
+        self.pool = TP(max_host_count=self.M, resolver=SimpleResolver(),
                                    connection_factory=lambda address, hostname=None, **kw: SimpleConn(run, address, hostname),
                                    ssl_connection_factory=lambda address, hostname=None, **kw: SimpleConn(run, address, hostname),
                                    max_count=self.maxcount)
@@ -238,12 +259,14 @@ class Run(object):
                 self.nrel += 1
                 r = self.nrel
                 before = set(pool._release_tasks)
+                self.rel_of[id(conn)] = r
+                self.rel_x[r] = x
                 pool.no_wait_release(conn)
                 new = [t for t in pool._release_tasks if t not in before]
                 task = new[0] if new else None
                 if task is not None:
                     self.rel_tasks[r] = (task, conn)
-                    task.add_done_callback(lambda t, r=r, x=x: self._rtask_done(r, x, t))
+                    task.add_done_callback(lambda t, r=r: self._rtask_done(r, t))
                 self.state[c] = 'idle' if self.nuse[c] < self.uses else 'done'
                 self.log(e='rel', c=c, x=x, mode='n', cl=cl, r=r)
             else:
@@ -253,25 +276,31 @@ class Run(object):
                     yield from pool.release(conn)
                 except asyncio.CancelledError:
                     self.state[c] = 'cancelled'
-                    self.log(e='relx', c=c, why='cancel')
+                    self.log(e='relx', c=c, x=x, why='cancel')
                     return
                 except Exception as e:  # noqa
                     self.state[c] = 'error'
-                    self.log(e='relx', c=c, why='error', detail=type(e).__name__)
+                    self.log(e='relx', c=c, x=x, why='error', detail=type(e).__name__)
                     return
                 self.state[c] = 'idle' if self.nuse[c] < self.uses else 'done'
-                self.log(e='reld', c=c)
+                self.log(e='reld', c=c, x=x)
             if self.state[c] == 'done':
                 return
 
-    def _rtask_done(self, r, x, t):
+    def _rtask_end(self, r, st):
+        if r and r not in self.rel_ended:
+            self.rel_ended.add(r)
+            self.log(e='rtask', r=r, x=self.rel_x[r], st=st)
+
+    def _rtask_done(self, r, t):
+        # fallback for a task that never ran (cancelled before its first step)
         if t.cancelled():
             st = 'cancelled'
         elif t.exception() is not None:
             st = 'error'
         else:
             st = 'done'
-        self.log(e='rtask', r=r, x=x, st=st)
+        self._rtask_end(r, st)
 
     # ------------------------------------------------------------------ environment
     def enabled(self, e):
